@@ -41,23 +41,28 @@ func (c *Ctx) membershipCheck(rule, name, ownerType, field string) {
 		}
 		return false, false
 	}, G1Opt{})
-	calls := ssau.CallsIn(f, isEq)
+	calls := callsVia(f, isEq) // the arbiter scan may live in a predicate helper of the package
 	c.R.Check(rule, name+"|single comparison", len(calls) == 1, c.pos(f.Pos()), fmt.Sprintf("%d bytes.Equal call(s)", len(calls)))
-	for _, call := range calls {
-		a := call.Common().Args
-		arb := func(v ssa.Value) bool {
-			return ssau.DependsOn(v, func(x ssa.Value) bool { return ssau.IsFieldOf(x, "ArbiterInfo", "NodePublicKey") }) &&
-				ssau.DependsOn(v, func(x ssa.Value) bool { return methodCallNamed(x, "GetArbitrators") })
-		}
-		raw := fieldIs(ownerType, field)
-		ok := (arb(a[0]) && raw(a[1])) || (arb(a[1]) && raw(a[0]))
-		c.R.Check(rule, name+"|compares the raw "+field, ok, c.posOf(call), fmt.Sprintf("the arbiter key from GetArbitrators() must be compared with the unmodified %s.%s bytes (the same bytes that are counted/verified), not a re-encoding", ownerType, field))
-		c.G2(rule, name+"|only normal arbiters", f, call, "arbiter.IsNormal", func(i *ssa.If) (bool, bool) {
-			x, neg := ssau.StripNot(i.Cond)
-			if ssau.IsFieldOf(ssau.Unwrap(x), "ArbiterInfo", "IsNormal") {
-				return true, !neg
+	for _, vc := range calls {
+		vc := vc
+		call := vc.call
+		host := call.Parent()
+		vc.with(func() {
+			a := call.Common().Args
+			arb := func(v ssa.Value) bool {
+				return ssau.DependsOn(v, func(x ssa.Value) bool { return ssau.IsFieldOf(x, "ArbiterInfo", "NodePublicKey") }) &&
+					ssau.DependsOn(v, func(x ssa.Value) bool { return methodCallNamed(x, "GetArbitrators") })
 			}
-			return false, false
+			raw := fieldIs(ownerType, field)
+			ok := (arb(a[0]) && raw(a[1])) || (arb(a[1]) && raw(a[0]))
+			c.R.Check(rule, name+"|compares the raw "+field, ok, c.posOf(call), fmt.Sprintf("the arbiter key from GetArbitrators() must be compared with the unmodified %s.%s bytes (the same bytes that are counted/verified), not a re-encoding", ownerType, field))
+			c.G2(rule, name+"|only normal arbiters", host, call, "arbiter.IsNormal", func(i *ssa.If) (bool, bool) {
+				x, neg := ssau.StripNot(i.Cond)
+				if ssau.IsFieldOf(ssau.Unwrap(x), "ArbiterInfo", "IsNormal") {
+					return true, !neg
+				}
+				return false, false
+			})
 		})
 	}
 }
@@ -71,23 +76,29 @@ func runC25(c *Ctx) {
 
 	cc := c.fn("blockchain", "", "ConfirmContextCheck")
 	if cc != nil {
-		sets := []*ssa.MakeMap{}
-		for _, b := range cc.Blocks {
-			for _, in := range b.Instrs {
-				if m, ok := in.(*ssa.MakeMap); ok {
-					sets = append(sets, m)
+		mapsOf := func(f *ssa.Function) []*ssa.MakeMap {
+			var out []*ssa.MakeMap
+			for _, b := range f.Blocks {
+				for _, in := range b.Instrs {
+					if m, ok := in.(*ssa.MakeMap); ok {
+						out = append(out, m)
+					}
 				}
 			}
+			return out
 		}
+		// the counting may live in a helper of the package that returns the size of the set
+		setFn := c.relocateBy(cc, func(g *ssa.Function) bool { return len(mapsOf(g)) == 1 })
+		sets := mapsOf(setFn)
 		if len(sets) != 1 {
 			c.R.Check("G-quorum", "ConfirmContextCheck|signer set", false, c.pos(cc.Pos()), fmt.Sprintf("%d maps", len(sets)))
 		} else {
 			set := sets[0]
 			isSet := func(v ssa.Value) bool { return v == ssa.Value(set) }
 			c.GuardSuccess("G-quorum", "ConfirmContextCheck|len(signers) > majority", cc, "len(signers) <= GetArbitersMajorityCount()",
-				condCmp(isLenOf(isSet), func(v ssa.Value) bool { return methodCallNamed(ssau.Unwrap(v), "GetArbitersMajorityCount") }, token.LEQ, false), G1Opt{})
+				condCmp(viaHelperResult(isLenOf(isSet)), func(v ssa.Value) bool { return methodCallNamed(ssau.Unwrap(v), "GetArbitersMajorityCount") }, token.LEQ, false), G1Opt{})
 			n := 0
-			for _, b := range cc.Blocks {
+			for _, b := range setFn.Blocks {
 				for _, in := range b.Instrs {
 					up, ok := in.(*ssa.MapUpdate)
 					if !ok || !isSet(up.Map) {
@@ -96,7 +107,7 @@ func runC25(c *Ctx) {
 					n++
 					okKey := dependsOnFieldOf("DPOSProposalVote", "Signer")(up.Key) && !dependsOnFieldOf("DPOSProposalVote", "Sign")(up.Key)
 					c.R.Check("G-quorum", "ConfirmContextCheck|distinctness key = f(vote.Signer)", okKey, c.posOf(up), "signers must be keyed by a function of vote.Signer only")
-					c.G2("G-quorum", "ConfirmContextCheck|only accepting votes counted", cc, up, "vote.Accept", func(i *ssa.If) (bool, bool) {
+					c.G2("G-quorum", "ConfirmContextCheck|only accepting votes counted", setFn, up, "vote.Accept", func(i *ssa.If) (bool, bool) {
 						x, neg := ssau.StripNot(i.Cond)
 						if ssau.IsFieldOf(ssau.Unwrap(x), "DPOSProposalVote", "Accept") {
 							return true, !neg
